@@ -116,11 +116,11 @@ theorem sample_shapes (quantity : Option Quantity) (fitted : Bool) (nBoot nDraws
 /-- "with a single bootstrap, simulated coefficient vectors are distributed as multivariate normal with mean the
 fitted coefficients and covariance the reported coefficient covariance": with `n_bootstraps = 1` (no refits) and any
 `choice` generator honouring its contract (`n` values `< 1`), the MVN generator is called exactly **once**, with
-`mean = coef_`, `cov = statistics_['cov'] + √ε_mach·I`, `size = n_draws`, and row `d` of the result is draw `d`. -/
+`mean = coef_`, `cov = statistics_['cov'] + √ε_mach·diag(statistics_['cov'])`, `size = n_draws`, and row `d` of the result is draw `d`. -/
 theorem coef_draws_params (hextra : s.extra = []) (n : Nat)
     (hlen : (g.choice 1 n).length = n) (hlt : ∀ b ∈ g.choice 1 n, b < 1) :
     coefDraws g (bootstraps s.coef s.cov s.extra) n
-        = (List.range n).map (fun d => g.mvn 0 ⟨s.coef, loadDiagonal sqrtEpsMach s.cov⟩ n d)
+        = (List.range n).map (fun d => g.mvn 0 ⟨s.coef, loadedCov s.cov⟩ n d)
     ∧ (0 < n → mvnCalls (g.choice 1 n) = [(0, n)]) := by
   have hidx := choice_one_eq_replicate _ n hlen hlt
   refine ⟨?_, fun hn => by rw [hidx]; exact mvnCalls_replicate n hn⟩
@@ -129,13 +129,47 @@ theorem coef_draws_params (hextra : s.extra = []) (n : Nat)
   intro d hd
   exact coefDraw_replicate g _ [] n d (List.mem_range.mp hd)
 
-/-- the covariance handed over differs from the reported one by `√ε_mach = 2⁻²⁶` on the diagonal only
-(`utils.load_diagonal`), and `(2⁻²⁶)² = 2⁻⁵²` is the machine epsilon of IEEE doubles -/
+/-- the covariance handed over differs from the reported one on the diagonal only, by the *relative* amount
+`√ε_mach = 2⁻²⁶` of each coefficient's own variance (`load_diagonal(cov, load=np.sqrt(EPS) * np.diag(cov))`), and
+`(2⁻²⁶)² = 2⁻⁵²` is the machine epsilon of IEEE doubles -/
 theorem loaded_cov (cov : Nat → Nat → ℝ) (i j : Nat) :
-    loadDiagonal (sqrtEpsMach : ℝ) cov i j = cov i j + (if i = j then (1 / 2 ^ 26 : ℝ) else 0)
+    loadedCov cov i j = cov i j + (if i = j then (1 / 2 ^ 26 : ℝ) * cov i i else 0)
     ∧ (sqrtEpsMach : ℝ) * sqrtEpsMach = 1 / 2 ^ 52 := by
   refine ⟨?_, sqrtEpsMach_sq_real⟩
-  rw [loadDiagonal_apply, sqrtEpsMach_eq]
+  rw [loadedCov_apply, sqrtEpsMach_eq]
+
+/-- the loading is equivariant under a diagonal rescaling of the coefficients (a change of units of the response:
+`d i = c` for all `i`; of a feature: `d i = c` on the coefficients of its term): loading the rescaled covariance
+`D·cov·D` gives the rescaled loaded covariance `D·(cov + √ε diag cov)·D` — so "covariance the reported coefficient
+covariance" holds to the same relative accuracy `2⁻²⁶` in every system of units (an absolute load does not have this) -/
+theorem loaded_cov_rescale (cov : Nat → Nat → ℝ) (d : Nat → ℝ) (i j : Nat) :
+    loadedCov (fun a b => d a * cov a b * d b) i j = d i * loadedCov cov i j * d j := by
+  rw [loadedCov_apply, loadedCov_apply]
+  split
+  · next h => subst h; ring
+  · ring
+
+/-- the loading keeps positive semi-definiteness: for a PSD reported covariance (its diagonal is then non-negative)
+the loaded one is PSD, with `xᵀ S x = xᵀ cov x + √ε Σ_i x_i² cov_ii` — in particular the variance of every linear
+functional of the draws exceeds the reported one by at most the relative loading term -/
+theorem loaded_cov_psd (m : Nat) (cov : Nat → Nat → ℝ) (hpsd : ∀ x : Nat → ℝ, 0 ≤ quadForm m cov x) (x : Nat → ℝ) :
+    quadForm m (loadedCov cov) x = quadForm m cov x + sqrtEpsMach * ∑ i ∈ range m, x i ^ 2 * cov i i
+    ∧ (∀ i < m, 0 ≤ cov i i) ∧ quadForm m cov x ≤ quadForm m (loadedCov cov) x
+    ∧ 0 ≤ quadForm m (loadedCov cov) x := by
+  have hd := diag_nonneg_of_psd m cov hpsd
+  have hs : 0 ≤ sqrtEpsMach * ∑ i ∈ range m, x i ^ 2 * cov i i :=
+    mul_nonneg sqrtEpsMach_pos_real.le
+      (sum_nonneg fun i hi => mul_nonneg (sq_nonneg _) (hd i (mem_range.mp hi)))
+  have hq := quadForm_loadedCov m cov x
+  have := hpsd x
+  exact ⟨hq, hd, by linarith, by linarith⟩
+
+/-- non-vacuity of `loaded_cov_psd`: a covariance on mixed scales, `diag(4, 1/4)`, is positive semi-definite -/
+example : ∀ x : Nat → ℝ, 0 ≤ quadForm 2 (fun i j => if i = j then (if i = 0 then (4 : ℝ) else 1 / 4) else 0) x := by
+  intro x
+  simp only [quadForm, sumTo]
+  norm_num
+  nlinarith [sq_nonneg (x 0), sq_nonneg (x 1)]
 
 /-- with several bootstraps every draw still comes from the MVN call made for the bootstrap the `choice` generator
 assigned to it, with that bootstrap's `(coef, cov)` and `size` = the number of draws assigned to it -/
@@ -260,6 +294,53 @@ theorem y_draws_defined (scale : ℝ) (hs : s.scale = some scale) (mus : List (L
           simp [allSome, ih1 w x hw]
     exact happ _ _ _ hr
 
+/-! ## histories of calls on one model object
+
+"simulated means are the inverse link of the model matrix at the requested X applied to those draws" holds for **every**
+call, whatever was called before on the same object: in `Model/Sampling.lean: runHistory` only `fit` changes what
+`sample` reads, so the result of a call is the per-call function `sample` at the record of the latest fit and at the rows
+the call itself supplies (the contents of `X` / `sample_at_X` when the call is made).  The harness stream
+`sample.history` runs generated histories on the real object and compares each call with exactly this right-hand side. -/
+
+theorem stateAfter_append (st : Option (FitRec ℝ)) (pre post : List (HistOp ℝ)) :
+    stateAfter st (pre ++ post) = stateAfter (stateAfter st pre) post := by
+  induction pre generalizing st with
+  | nil => rfl
+  | cons op pre ih => cases op <;> simp [stateAfter, ih]
+
+theorem runHistory_append (st : Option (FitRec ℝ)) (pre post : List (HistOp ℝ)) :
+    runHistory st (pre ++ post) = runHistory st pre ++ runHistory (stateAfter st pre) post := by
+  induction pre generalizing st with
+  | nil => rfl
+  | cons op pre ih => cases op <;> simp [runHistory, stateAfter, ih]
+
+/-- a `sample` call made after any history `pre` returns `sample` applied to the record of the latest `fit` in `pre`
+(or to the initial state) and to the call's own arguments and rows — earlier `sample` / `predict` calls, and the array
+objects they were given, play no role -/
+theorem sample_stateless (st : Option (FitRec ℝ)) (pre : List (HistOp ℝ)) (c : SampleCall ℝ) :
+    runHistory st (pre ++ [.sample c]) = runHistory st pre ++ [c.result (stateAfter st pre)] := by
+  rw [runHistory_append]; rfl
+
+/-- the state a call sees is determined by the `fit` operations alone -/
+theorem stateAfter_filter_fit (st : Option (FitRec ℝ)) (ops : List (HistOp ℝ)) :
+    stateAfter st ops = stateAfter st (ops.filter (fun op => match op with | .fit _ => true | _ => false)) := by
+  induction ops generalizing st with
+  | nil => rfl
+  | cons op ops ih => cases op <;> simp [stateAfter, ih]
+
+/-- in a history, a valid `quantity = 'mu'` call on an object whose latest fit left the record `r` returns
+`g⁻¹(Σ_j B(X_now)_{ij} · draw_{dj})` with `B(X_now)` the rows supplied by **this** call and link / coefficients /
+covariance those of `r` -/
+theorem history_mu_eq (st : Option (FitRec ℝ)) (pre : List (HistOp ℝ)) (c : SampleCall ℝ) (r : FitRec ℝ)
+    (hr : stateAfter st pre = some r) (hq : c.quantity = some .mu) (hb : 1 ≤ c.nBoot) (hd : 1 ≤ c.nDraws)
+    (hok : c.dataOk = true) :
+    (runHistory st (pre ++ [.sample c])).getLast?
+      = some (.ok ((coefDraws c.g (bootstraps r.coef r.cov c.extra) c.nDraws.toNat).map (fun draw =>
+          (c.rowsAt.getD c.rowsX).map (fun row => linkInv r.link r.levels (∑ j ∈ range r.m, row j * draw j))))) := by
+  rw [sample_stateless, List.getLast?_append_of_ne_nil _ (by simp), List.getLast?_singleton, hr]
+  simp only [SampleCall.result, SampleCall.input, hq, hok, Option.isSome_some]
+  rw [mu_draws_eq _ _ c.nBoot c.nDraws hb hd]
+
 /-! ## non-vacuity -/
 
 /-- a generator triple meeting the `choice` contract, and a concrete run: one coefficient `3`, variance `1`, identity
@@ -274,6 +355,26 @@ example :
   refine ⟨⟨by simp, by simp⟩, ?_⟩
   rw [mu_draws_eq _ _ 1 2 (by norm_num) (by norm_num)]
   simp [coefDraws, bootstraps, coefDraw, linkInv, List.range, List.range.loop]
+  norm_num
+
+/-- a concrete history meeting the hypotheses of `history_mu_eq`: fit, a `mu` call at rows `[7]`, a predict, a refit
+that changes the coefficient from 3 to 5, then a `mu` call at rows `[2]` — its result uses the coefficient of the refit
+and the rows of this call: `2·5`, `2·6` -/
+example :
+    let g : Gens ℝ := { choice := fun _ n => List.replicate n 0, mvn := fun _ bt _ p j => bt.coef j + p,
+                        resp := fun _ _ _ => 0 }
+    let r1 : FitRec ℝ := { m := 1, coef := fun _ => 3, cov := fun _ _ => 1, link := .identity, fam := .normal,
+                           levels := 1, scale := some 1 }
+    let r2 : FitRec ℝ := { r1 with coef := fun _ => 5 }
+    let c1 : SampleCall ℝ := { g := g, quantity := some .mu, nBoot := 1, nDraws := 2, dataOk := true,
+                               rowsX := [fun _ => 7], rowsAt := none, extra := [] }
+    let c2 : SampleCall ℝ := { c1 with rowsX := [fun _ => 2] }
+    (runHistory none [.fit r1, .sample c1, .predict [], .fit r2, .sample c2]).getLast? = some (.ok [[10], [12]]) := by
+  intro g r1 r2 c1 c2
+  have h := history_mu_eq none [.fit r1, .sample c1, .predict [], .fit r2] c2 r2 rfl rfl (by norm_num) (by norm_num) rfl
+  simp only [List.cons_append, List.nil_append] at h
+  rw [h]
+  simp [c2, c1, r2, r1, g, coefDraws, bootstraps, coefDraw, linkInv, List.range, List.range.loop]
   norm_num
 
 end PyGam.C17
